@@ -370,6 +370,9 @@ func (s *session) exec(o op) (res opResult) {
 	case "set_root":
 		setErr(&res, p.SetRoot(o.Path))
 
+	case "set_debug":
+		p.SetDebug(true)
+
 	case "output":
 		out, err := p.Output(o.Format)
 		setErr(&res, err)
